@@ -345,7 +345,7 @@ func (rs c22RuleSpec) compose(inbound bool) (lines []string, st c22Status, unspe
 	rule = c16Rule{Incoming: inbound}
 	rs.Proto.Apply(&rule)
 	port := rs.Port
-	if rule.Proto == "icmp" && rs.Proto.Status != c22Reject {
+	if rule.Proto == "icmp" && rs.Proto.Status != c22Reject && !strings.HasPrefix(rs.Port.Class, "code") {
 		// "a port specification is ignored if proto is icmp" (examples/config.yml)
 		port = c22Opt{Status: c22Must, Class: "port ignored for icmp (" + rs.Port.Class + ")", Apply: func(r *c16Rule) { r.PortKind = c16PortAny }}
 	}
@@ -386,7 +386,7 @@ func TestVerifC22(t *testing.T) {
 
 	c.Assume("three-valued grammar: where the statement is silent (upper-case proto/any, numeric proto, blanks / '+' / leading zeros / full-width digits in port text, YAML float or hex ports, a range starting at 0, group given as a list, groups given as a string, a rule whose only selector is local_cidr/ca_name/ca_sha, cidr with host bits) loading is NOT judged; if such a text loads it must mean the normalised text, or (range starting at 0, group+groups, non-string group values) its meaning is declared unspecified")
 	c.Assume("the port of a proto:icmp rule is ignored whatever its text (documented in examples/config.yml)")
-	c.Assume("the deprecated `code` key and keys outside the documented set are not enumerated; conntrack timeouts, inbound_action etc. are not part of this property")
+	c.Assume("the deprecated `code` key is only checked for not crashing (loading and meaning not judged); keys outside the documented set are not enumerated; conntrack timeouts, inbound_action etc. are not part of this property")
 	c.Assume("non-string YAML scalars are judged by their decimal rendering (80 -> \"80\"); booleans, nulls, lists and maps are not ports/protocols")
 
 	// the node has an unsafe network so that local_cidr changes verdicts
@@ -459,6 +459,9 @@ func TestVerifC22(t *testing.T) {
 		c22Opt{[]string{"port: [80]"}, c22Reject, "port is a list [typed]", false, nop},
 		c22Opt{[]string{"port: {from: 80}"}, c22Reject, "port is a map [typed]", false, nop},
 		c22Opt{nil, c22Reject, "port missing", false, nop},
+		// the deprecated `code` key: the statement does not mention it; only "no crash" is checked
+		c22Opt{[]string{`code: "80"`}, c22Either, "code instead of port", true, nop},
+		c22Opt{[]string{`code: "80"`, `port: "80"`}, c22Either, "code and port", true, nop},
 	)
 
 	type sel struct {
